@@ -408,7 +408,47 @@ pub fn run_c10(env: &Env) -> Report {
     let mut rep = Report::new("c10");
     for r in reps { rep.merge(r); }
     rep.merge(live_damage(env));
+    rep.merge(full_disk(env));
     rep.notes.sort(); rep.notes.dedup();
+    rep
+}
+
+/// a save that can OPEN the store but cannot WRITE it (disk full, quota): the store of a live context is replaced by a link to /dev/full
+/// (Linux: opens for writing, every write fails with ENOSPC). A learning commit must return, end the word, and the keyboard keeps working;
+/// when the store is writable again a later choice is saved. Not traced for the model (reading /dev/full never ends): implementation only.
+fn full_disk(env: &Env) -> Report {
+    let mut rep = Report::new("c10");
+    if !Path::new("/dev/full").exists() { rep.notes.push("/dev/full not available: full-disk fault not exercised".into()); return rep; }
+    for v in 0..2 {
+        let xdg = env.fresh_xdg(&format!("c10-full-{}", v));
+        let mut opts = Opts::none(); opts.phonetic_suggestion = true; opts.english = v == 1;
+        let what = json!({"stream": "c10", "fault": "store cannot be written (link to /dev/full)", "opts": opts.bits_str()});
+        let mut imp = match Imp::new(&mk_config(PHONETIC, &opts, &xdg)) { Some(i) => i, None => continue };
+        let type_word = |imp: &mut Imp, w: &str| -> Obs { let mut o = Obs::Unit; for c in w.chars() { o = imp.key(code_for_char(c).unwrap(), 0, 0); if o == Obs::Panic { break; } } o };
+        // a first choice is saved normally
+        if let Obs::Full { cands, sel, .. } = type_word(&mut imp, "kor") { if cands.len() > 1 { imp.commit((sel + 1) % cands.len()); } else { imp.finish(); } }
+        let sp = sel_path(&xdg);
+        let saved = std::fs::read(&sp).ok();
+        let _ = std::fs::remove_file(&sp);
+        if std::os::unix::fs::symlink("/dev/full", &sp).is_err() { continue; }
+        let o = type_word(&mut imp, "kori");
+        rep.eval(Some(&format!("full|{}", v)));
+        if let Obs::Full { cands, sel, .. } = &o { if cands.len() > 1 {
+            let r = imp.commit((sel + 1) % cands.len());
+            if r == Obs::Panic { rep.violation("C10", "commit-panics", "a learning commit panicked because the store could be opened but not written (disk full)".into(), what.clone()); let _ = std::fs::remove_file(&sp); continue; }
+            if imp.ongoing() { rep.violation("C10", "commit-keeps-session", "after a learning commit whose save failed (disk full) the word is still being composed".into(), what.clone()); }
+        } }
+        if type_word(&mut imp, "ami") == Obs::Panic { rep.violation("C10", "typing-panics", "typing after a failed save (disk full) panicked".into(), what.clone()); let _ = std::fs::remove_file(&sp); continue; }
+        imp.finish();
+        // the store is writable again
+        let _ = std::fs::remove_file(&sp);
+        if let Some(b) = saved { let _ = std::fs::write(&sp, b); }
+        if let Obs::Full { cands, sel, .. } = type_word(&mut imp, "bol") { if cands.len() > 1 {
+            if imp.commit((sel + 1) % cands.len()) == Obs::Panic { rep.violation("C10", "commit-panics", "a learning commit after the disk-full episode panicked".into(), what.clone()); continue; }
+            match file_ok(&xdg) { Some(true) => {}, other => rep.violation("C10", "store-not-loadable", format!("after the disk-full episode the store file is {:?}", other), what.clone()) }
+        } }
+        rep.count("full-disk-episode");
+    }
     rep
 }
 
@@ -538,7 +578,12 @@ pub fn run_c11(env: &Env) -> Report {
             let mut b = match Sess::new(&mut t, &env.data, "b", &l2, o2, &xdg_b) { Some(s) => s, None => continue };
             let phon2 = l2 == PHONETIC;
             let mut diverged = false;
-            let cont: Vec<String> = if phon2 { let mut v = words.clone(); v.push(pools.word(&mut rng)); v.retain(|w| w.chars().all(crate::code_ok)); v } else { vec!["kami".into(), "hk".into()] };
+            // the continuation: the words of the history, ANOTHER SPELLING of them in upper/lower case (the transliteration is case
+            // sensitive: T is ট, t is ত — whatever the live context remembers per word must not be shared between the two), a suffixed
+            // form, and a word not seen before
+            let cont: Vec<String> = if phon2 { let mut v = words.clone();
+                    if let Some(w0) = words.first() { let flipped: String = w0.chars().enumerate().map(|(i, c)| if i % 2 == 1 || w0.len() == 1 { if c.is_ascii_lowercase() { c.to_ascii_uppercase() } else { c.to_ascii_lowercase() } } else { c }).collect(); v.push(flipped); v.push(format!("{}er", w0)); }
+                    v.push(pools.word(&mut rng)); v.retain(|w| w.chars().all(crate::code_ok)); v } else { vec!["kami".into(), "hk".into()] };
             for w in &cont {
                 for ch in w.chars() {
                     let code = code_for_char(ch).unwrap();
